@@ -502,6 +502,20 @@ impl Chain {
                 Ok(None)
             }
             CosmosMsg::Stargate { type_url, value } => self.handle_stargate(type_url, value.as_slice(), eff),
+            // the same call expressed as a CosmWasm message instead of a Stargate payload
+            CosmosMsg::Wasm(cosmwasm_std::WasmMsg::Execute { contract_addr, msg, funds }) => {
+                if self.oracle.as_deref() != Some(contract_addr.as_str()) {
+                    return Err(format!("no such contract {contract_addr}"));
+                }
+                if self.oracle_rejects {
+                    return Err("oracle rejected the message".into());
+                }
+                let json = String::from_utf8(msg.to_vec()).map_err(|_| "oracle msg not utf8")?;
+                serde_json::from_str::<serde_json::Value>(&json).map_err(|_| "oracle msg not json")?;
+                self.w.oracle_posts += 1;
+                eff.push(Effect::OraclePost { oracle: contract_addr.clone(), sender: contract.clone(), n_funds: funds.len(), json });
+                Ok(None)
+            }
             other => Err(format!("unsupported message {:?}", other)),
         }
     }
